@@ -303,8 +303,9 @@ func (w *WAL) newSegment(ID, baseIndex uint64) types.SegmentInfo {
 		MinIndex:  baseIndex,
 		SizeLimit: uint32(w.segmentSize),
 
-		// TODO make these configurable
-		Codec:      CodecBinaryV1,
+		// Record the codec this WAL was opened with so that a later Open can verify
+		// it is decoding with the same one.
+		Codec:      w.codec.ID(),
 		CreateTime: time.Now(),
 	}
 }
